@@ -10,9 +10,11 @@
 #include <unistd.h>
 #include <time.h>
 static __thread uint64_t st;
+volatile unsigned long verif_sync_calls;   // progress indicator for harness/watchdog.h
 static uint64_t seed0(void) { static uint64_t s; static int init; if (!init) { const char *e = getenv("VERIF_SCHED_SEED"); s = e ? strtoull(e, NULL, 10) : 0; init = 1; } return s; }
 static void perturb(void)
 {
+	__atomic_fetch_add(&verif_sync_calls, 1, __ATOMIC_RELAXED);
 	if (!seed0()) return;
 	if (!st) st = seed0() * 0x9E3779B97F4A7C15ULL ^ (uint64_t)(uintptr_t)&st;
 	st ^= st << 13; st ^= st >> 7; st ^= st << 17;
